@@ -349,6 +349,28 @@ func ruleRoutingPairs(r *Run) {
 		}
 	}
 	r.AtLeast(rule, "SetFromSchema calls in Merge", n, 2)
+	// NewGateway pairs schemas[i] with urls[i]: the introspector must hand back one schema per
+	// URL it was given, i.e. fan out over lo.Range(len(urls)) of the untouched parameter
+	if irs := r.Anchor(rule, "introspection.(*ParallelRemoteSchemaIntrospector).IntrospectRemoteSchemas"); irs != nil {
+		call, _, _ := r.amrSite(irs)
+		ok := false
+		if call != nil && len(irs.Params) == 2 {
+			if rc, isCall := unwrap(call.Call.Args[0]).(*ssa.Call); isCall && strings.HasSuffix(calleeName(&rc.Call), "lo.Range") && len(rc.Call.Args) == 1 {
+				if lc, isLen := rc.Call.Args[0].(*ssa.Call); isLen {
+					if b, isB := lc.Call.Value.(*ssa.Builtin); isB && b.Name() == "len" && isUntouchedParam(irs, lc.Call.Args[0], irs.Params[1]) {
+						ok = true
+					}
+				}
+			}
+		}
+		site := r.P.pos(irs.Pos())
+		if call != nil {
+			site = r.P.pos(call.Pos())
+		}
+		r.Check(ok, rule, fnName(irs), "one schema per given URL", site,
+			"the fan-out runs over lo.Range(len(urls)) of the parameter as received (never reassigned, filtered or chunked)",
+			"the introspector no longer fans out over exactly the URL list it was given (the list is filtered, de-duplicated, re-sliced or the fan-out is split): NewGateway pairs schemas[i] with urls[i], so a shorter or re-ordered result records a service's fields under another service's URL")
+	}
 	ng := r.Anchor(rule, "pebbles.NewGateway")
 	if ng != nil {
 		// &MergeInput{Schema: schemas[i], URL: urls[i]} with one i
@@ -394,6 +416,24 @@ func ruleNodeFlag(r *Run) {
 	fn := r.Anchor(rule, "merger.(TypeURLMap).SetFromSchema")
 	if fn == nil {
 		return
+	}
+	// the setter itself records the flag on every path (it creates the entry when needed)
+	if set := r.Anchor(rule, "merger.(TypeURLMap).SetTypeIsImplementsNode"); set != nil {
+		okSet, bad := mustPass(set.Blocks[0], 0, func(i ssa.Instruction) bool {
+			st, ok := i.(*ssa.Store)
+			if !ok {
+				return false
+			}
+			fa, ok := st.Addr.(*ssa.FieldAddr)
+			return ok && fieldOf(fa) != nil && fieldOf(fa).Name() == "IsImplementsNode"
+		})
+		site := r.P.pos(set.Pos())
+		if !okSet && bad != nil {
+			site = r.P.pos(bad.Pos())
+		}
+		r.Check(okSet, rule, fnName(set), "flag stored on every path", site,
+			"every path through SetTypeIsImplementsNode stores IsImplementsNode (creating the entry if the type has none yet)",
+			"SetTypeIsImplementsNode can return without recording the flag (for a type that has no entry yet): a Node type whose only field is `id` is never marked stitchable, and the planner cannot locate it")
 	}
 	isContainsNode := func(v ssa.Value) bool {
 		c, ok := v.(*ssa.Call)
@@ -608,4 +648,195 @@ func dependsOnCallOnField(v ssa.Value, f string) bool {
 		return false
 	}
 	return g(v)
+}
+
+// isUntouchedParam: v is the parameter itself, or a load of the cell the parameter was spilled
+// into (captured parameters are) when that cell is stored to exactly once — the spill — in fn
+// and never in its closures.
+func isUntouchedParam(fn *ssa.Function, v ssa.Value, p *ssa.Parameter) bool {
+	if v == ssa.Value(p) {
+		return true
+	}
+	ld, ok := v.(*ssa.UnOp)
+	if !ok || ld.Op != token.MUL {
+		return false
+	}
+	cell, ok := ld.X.(*ssa.Alloc)
+	if !ok {
+		return false
+	}
+	stores := 0
+	for _, ref := range *cell.Referrers() {
+		if st, ok := ref.(*ssa.Store); ok && st.Addr == ssa.Value(cell) {
+			stores++
+			if st.Val != ssa.Value(p) {
+				return false
+			}
+		}
+	}
+	if stores != 1 {
+		return false
+	}
+	for _, an := range withClosures(fn) {
+		if an == fn {
+			continue
+		}
+		for _, ins := range allInstrs(an) {
+			if st, ok := ins.(*ssa.Store); ok {
+				if fv, ok := st.Addr.(*ssa.FreeVar); ok && fv.Name() == p.Name() {
+					return false
+				}
+			}
+		}
+	}
+	return true
+}
+
+// ruleDownstreamErrorPath (R6s.path): the error list a service answered with travels from
+// queryBatch to the operation's Result untouched: on its way it is only returned, joined by
+// AsyncMapReduce / ExtendErrorList, or formatted by FormatError. Handing it to any other
+// function (a wrapper that builds a new error from err.Error(), ToGqlError, fmt.Errorf …)
+// flattens message, path and extensions into one string.
+func ruleDownstreamErrorPath(r *Run) {
+	const rule = "R6s.path"
+	preserving := map[string]bool{"gqlerrors.ExtendErrorList": true, "gqlerrors.FormatError": true}
+	// sources: Response.Errors converted to the error interface in the queryer
+	var work []ssa.Value
+	seen := map[ssa.Value]bool{}
+	add := func(v ssa.Value) {
+		if v != nil && !seen[v] {
+			seen[v] = true
+			work = append(work, v)
+		}
+	}
+	nSrc := 0
+	for _, fn := range r.P.Funcs {
+		if topFn(fn).Pkg == nil || shortPkg(topFn(fn).Pkg.Pkg.Path()) != "queryer" {
+			continue
+		}
+		for _, ins := range allInstrs(fn) {
+			mi, ok := ins.(*ssa.MakeInterface)
+			if !ok || namedOf(mi.X.Type()) != modPath+"/gqlerrors.ErrorList" || !dependsOnField(mi.X, "Errors") {
+				continue
+			}
+			nSrc++
+			add(mi)
+		}
+	}
+	n := 0
+	for len(work) > 0 {
+		v := work[len(work)-1]
+		work = work[:len(work)-1]
+		if v.Referrers() == nil {
+			continue
+		}
+		for _, ref := range *v.Referrers() {
+			switch x := ref.(type) {
+			case *ssa.MakeInterface, *ssa.ChangeInterface, *ssa.ChangeType, *ssa.Phi, *ssa.TypeAssert:
+				add(x.(ssa.Value))
+			case *ssa.Extract:
+				add(x)
+			case *ssa.Store:
+				// spilled result variable (named results / defer): follow loads of the cell
+				if al, ok := x.Addr.(*ssa.Alloc); ok && x.Val == v {
+					for _, r2 := range *al.Referrers() {
+						if ld, ok := r2.(*ssa.UnOp); ok {
+							add(ld)
+						}
+					}
+				}
+			case *ssa.Return:
+				fn := x.Parent()
+				idx := -1
+				for i, res := range x.Results {
+					if res == v {
+						idx = i
+					}
+				}
+				if idx < 0 {
+					continue
+				}
+				for _, e := range r.P.CG.In[fn] {
+					switch e.Kind {
+					case "param":
+						continue
+					case "hoarg":
+						// fn is the map function of an AsyncMapReduce call: its errors come back
+						// as the call's error list
+						if cv, ok := e.Site.(*ssa.Call); ok {
+							for _, r2 := range *cv.Referrers() {
+								if ex, ok := r2.(*ssa.Extract); ok && ex.Index == 1 {
+									add(ex)
+								}
+							}
+						}
+					default:
+						cv, ok := e.Site.(*ssa.Call)
+						if !ok {
+							continue
+						}
+						if fn.Signature.Results().Len() == 1 {
+							add(cv)
+							continue
+						}
+						for _, r2 := range *cv.Referrers() {
+							if ex, ok := r2.(*ssa.Extract); ok && ex.Index == idx {
+								add(ex)
+							}
+						}
+					}
+				}
+			case ssa.CallInstruction:
+				c := x.Common()
+				if b, ok := c.Value.(*ssa.Builtin); ok && (b.Name() == "len" || b.Name() == "append") {
+					if b.Name() == "append" {
+						if cv, ok := x.(ssa.Value); ok {
+							add(cv)
+						}
+					}
+					continue
+				}
+				isArg := false
+				for _, a := range c.Args {
+					if a == v {
+						isArg = true
+					}
+				}
+				if !isArg && !(c.IsInvoke() && c.Value == v) {
+					continue
+				}
+				n++
+				name := ""
+				if sc := c.StaticCallee(); sc != nil {
+					name = fnName(r.P.declared(sc))
+				}
+				site := r.P.pos(x.Pos())
+				where := fnName(x.Parent())
+				// a call that yields no new error value (an observer, a logger, a counter) leaves
+				// the list itself on its way; asking the list for its text is a conversion
+				yields := c.IsInvoke() && c.Value == v && c.Method.Name() == "Error"
+				if res := c.Signature().Results(); res != nil {
+					for i := 0; i < res.Len(); i++ {
+						if isErrorish(res.At(i).Type()) || strings.HasSuffix(namedOf(res.At(i).Type()), "gqlerrors.Error") {
+							yields = true
+						}
+					}
+				}
+				if !yields {
+					n--
+					continue
+				}
+				if preserving[name] {
+					r.OK(rule, where, "downstream errors passed to "+name, site, "structure-preserving: every error keeps message, path and extensions")
+					if cv, ok := x.(ssa.Value); ok {
+						add(cv)
+					}
+					continue
+				}
+				r.Bad(rule, where, "downstream errors passed to "+calleeDesc(c), site, "the error list answered by a service is handed to "+calleeDesc(c)+" on its way to the client: anything but returning it, ExtendErrorList and FormatError rebuilds the error from its text — several errors collapse into one message and their path and extensions are lost")
+			}
+		}
+	}
+	r.AtLeast(rule, "sources (service error lists returned by the queryer)", nSrc, 2)
+	r.AtLeast(rule, "hand-overs of downstream errors", n, 2)
 }
